@@ -1112,6 +1112,9 @@ def r07_23(run, model):
 
 
 def run(run, model):
+    # a bounded call `x.show()` at an instance is resolved through the impl's function name: two impls sharing one name make an instantiation run the other trait's code (shared with C17 R17.1)
+    from rules import c17 as _c17n
+    run.try_rule(_c17n.r17_1, model)
     run.try_rule(r07_1, model)
     run.try_rule(r07_2, model, None, "C07")
     run.try_rule(r07_7, model)
